@@ -1,5 +1,316 @@
-From Coq Require Import List String ZArith.
-From BD.Cron Require Import Model Proofs.
-Example C09_smoke : cls (parse "0 0 30 2 *") = 0%nat.
-Proof. exact parse_smoke. Qed.
-Print Assumptions C09_smoke.
+(* C09 - the scheduler daemon starts each DAG exactly at its scheduled minutes.
+   This file holds nothing but the property theorems (closed by `exact`), Print Assumptions and Examples.
+   Models: Cron/Model.v (robfig/cron v3.0.1 Parser.Parse + SpecSchedule.Next for the 5-field option set, civil
+   calendar), Cron/Schedule.v (builder.go buildSchedule, parser.go parseScheduleMap), Daemon/Model.v
+   (scheduler.go run, entryreader.go Read / initDags / watchDags, job.go Start / Stop / Restart).
+   Tie to the code: tools/props/C09.py (differential runs of dag.LoadYAML, Parsed.Next and of the real
+   scheduler.New + watcher against these models; the property monitor on what the daemon did).
+
+   FULL STATEMENT (false of the pinned code, see the _refuted theorems):
+     for every history of ticks / edits / restarts, a Start for DAG d is issued by the tick of minute m iff one of
+     d's start schedules matches m, d is not suspended, not running, and its latest run started before m - so no
+     minute is missed and none is started twice; Stop only on running DAGs; Restart at each matching minute; an
+     unloadable file never affects the other DAGs.
+   It fails for: a schedule without activation up to the end of year+5 (F9a: Next = zero time, invoked at every
+   tick), two start schedules matching one minute (F9b: two Starts), a file on which the loader panics (F13a/b:
+   the daemon dies).  The _partial theorems carry exactly these exclusions as decidable premises. *)
+From Coq Require Import List String ZArith Bool.
+Import ListNotations.
+From BD.Cron Require Import Model Schedule ProofsCal ProofsNext.
+From BD.Daemon Require Import Model ProofsTick Proofs ProofsSeq Witness.
+Local Open Scope Z_scope.
+
+(* ------------------------------------------------------------------------------------------ *)
+(* calendar: civil date <-> day number, civil time <-> unix minute, inverse on the whole of Z  *)
+(* ------------------------------------------------------------------------------------------ *)
+Theorem C09_calendar_of_day : forall D y mo d, civil_from_days D = (y, mo, d) ->
+  valid_date y mo d = true /\ days_from_civil y mo d = D.
+Proof. exact civil_days_roundtrip. Qed.
+Print Assumptions C09_calendar_of_day.
+
+Theorem C09_calendar_of_date : forall y mo d, valid_date y mo d = true ->
+  civil_from_days (days_from_civil y mo d) = (y, mo, d).
+Proof. exact days_civil_roundtrip. Qed.
+Print Assumptions C09_calendar_of_date.
+
+Theorem C09_calendar_of_minute : forall m, minute_of_civil (civil_of_minute m) = m /\ valid_civil (civil_of_minute m) = true.
+Proof. exact minute_civil_roundtrip. Qed.
+Print Assumptions C09_calendar_of_minute.
+
+Theorem C09_calendar_of_civil : forall c, valid_civil c = true -> civil_of_minute (minute_of_civil c) = c.
+Proof. exact civil_minute_roundtrip. Qed.
+Print Assumptions C09_calendar_of_civil.
+
+(* ------------------------------------------------------------------------------------------ *)
+(* Next = the least matching minute after t within the horizon (end of year(t+1s)+5), else None *)
+(* ------------------------------------------------------------------------------------------ *)
+Theorem C09_next_least : forall sp t, least (matches sp) (next_lo t) (horizon sp t) (next sp t).
+Proof. exact next_least. Qed.
+Print Assumptions C09_next_least.
+
+Theorem C09_next_some : forall sp t m, next sp t = Some m ->
+  next_lo t <= m < horizon sp t /\ matches sp m = true /\ forall y, next_lo t <= y < m -> matches sp y = false.
+Proof. exact next_some. Qed.
+Print Assumptions C09_next_some.
+
+Theorem C09_next_none : forall sp t, next sp t = None -> forall y, next_lo t <= y < horizon sp t -> matches sp y = false.
+Proof. exact next_none. Qed.
+Print Assumptions C09_next_none.
+
+(* a whole minute m is searched iff it lies strictly after the instant t (seconds) *)
+Theorem C09_next_after : forall t m, next_lo t <= m <-> t < 60 * m.
+Proof. exact next_lo_spec. Qed.
+Print Assumptions C09_next_after.
+
+(* the skipping implementation equals the naive minute-by-minute search *)
+Theorem C09_next_eq_naive : forall sp t, next sp t = next_naive sp t.
+Proof. exact next_eq_naive. Qed.
+Print Assumptions C09_next_eq_naive.
+
+(* ------------------------------------------------------------------------------------------ *)
+(* the daemon's test Next(tick - 1s) <= tick                                                   *)
+(* ------------------------------------------------------------------------------------------ *)
+(* full statement: forall sp m, due sp m = true <-> matches sp m = true        (false: C09_due_refuted) *)
+Theorem C09_due_partial : forall sp m, next sp (60 * m - 1) <> None -> (due sp m = true <-> matches sp m = true).
+Proof. exact due_iff_matches. Qed.
+Print Assumptions C09_due_partial.
+
+(* the premise says: the schedule has an activation between m and the horizon *)
+Theorem C09_due_premise : forall sp m, next sp (60 * m - 1) <> None <->
+  exists n, m <= n < horizon sp (60 * m - 1) /\ matches sp n = true.
+Proof. exact next_not_none_iff. Qed.
+Print Assumptions C09_due_premise.
+
+(* one direction holds for every schedule: a matching minute is always due, with Next = the minute itself *)
+Theorem C09_due_of_match : forall sp m, matches sp m = true -> due sp m = true /\ next_time sp (60 * m - 1) = m.
+Proof. exact due_of_match. Qed.
+Print Assumptions C09_due_of_match.
+
+(* F9a *)
+Theorem C09_due_refuted : exists sp m, parse "0 0 30 2 *" = POk sp /\ matches sp m = false /\ due sp m = true.
+Proof. exact due_refuted. Qed.
+Print Assumptions C09_due_refuted.
+
+Theorem C09_due_of_none : forall sp m, next sp (60 * m - 1) = None -> zero_minute <= m ->
+  due sp m = true /\ matches sp m = false.
+Proof. exact due_of_none. Qed.
+Print Assumptions C09_due_of_none.
+
+Example C09_due_premise_sat : exists sp, parse "*/15 3 * * 1-5" = POk sp /\
+    next sp (60 * 28589040 - 1) <> None /\ next sp (60 * 28588500 - 1) = Some 28588500 /\
+    matches sp 28588500 = true /\ due sp 28588500 = true /\ due sp 28589040 = false.
+Proof. exact due_premise_sat. Qed.
+
+(* ------------------------------------------------------------------------------------------ *)
+(* one tick: the multiset of client calls = the guard formula                                  *)
+(* ------------------------------------------------------------------------------------------ *)
+(* faithful form, no premise on the schedules: per file and kind, the number of calls is the number of schedules
+   that are due and pass job.go's guard (file_count) *)
+Theorem C09_tick_count : forall s m c, NoDup (map fst (tbl s)) ->
+  count c (tick_calls s m) =
+  if alive s then
+    match lookup (call_file c) (tbl s) with
+    | Some e => if mem (call_file c) (susp s) then 0%nat else file_count s m (call_file c) e c
+    | None => 0%nat
+    end
+  else 0%nat.
+Proof. exact tick_count. Qed.
+Print Assumptions C09_tick_count.
+
+(* full statement: the same without `in_horizon`                              (false: C09_start_iff_refuted) *)
+Theorem C09_start_iff_partial : forall s m, NoDup (map fst (tbl s)) ->
+  forall f e, lookup f (tbl s) = Some e -> in_horizon m (starts e) ->
+  count (CStart f) (tick_calls s m) =
+  if alive s && negb (mem f (susp s)) && start_guard (status_of s f) m then matching m (starts e) else 0%nat.
+Proof. exact start_iff. Qed.
+Print Assumptions C09_start_iff_partial.
+
+Theorem C09_stop_iff_partial : forall s m, NoDup (map fst (tbl s)) ->
+  forall f e, lookup f (tbl s) = Some e -> in_horizon m (stops e) ->
+  count (CStop f) (tick_calls s m) =
+  if alive s && negb (mem f (susp s)) && stop_guard (status_of s f) then matching m (stops e) else 0%nat.
+Proof. exact stop_iff. Qed.
+Print Assumptions C09_stop_iff_partial.
+
+Theorem C09_restart_iff_partial : forall s m, NoDup (map fst (tbl s)) ->
+  forall f e, lookup f (tbl s) = Some e -> in_horizon m (restarts e) ->
+  count (CRestart f) (tick_calls s m) = if alive s && negb (mem f (susp s)) then matching m (restarts e) else 0%nat.
+Proof. exact restart_iff. Qed.
+Print Assumptions C09_restart_iff_partial.
+
+(* the premise is decidable *)
+Theorem C09_in_horizon_dec : forall m sps, in_horizonb m sps = true <-> in_horizon m sps.
+Proof. exact in_horizonb_spec. Qed.
+Print Assumptions C09_in_horizon_dec.
+
+(* the property's wording *)
+Theorem C09_start_in_iff_partial : forall s m, NoDup (map fst (tbl s)) ->
+  forall f e, lookup f (tbl s) = Some e -> in_horizon m (starts e) ->
+  (In (CStart f) (tick_calls s m) <->
+   alive s = true /\ mem f (susp s) = false /\ start_guard (status_of s f) m = true /\
+   exists sp, In sp (starts e) /\ matches sp m = true).
+Proof. exact start_in_iff. Qed.
+Print Assumptions C09_start_in_iff_partial.
+
+Theorem C09_stop_in_iff_partial : forall s m, NoDup (map fst (tbl s)) ->
+  forall f e, lookup f (tbl s) = Some e -> in_horizon m (stops e) ->
+  (In (CStop f) (tick_calls s m) <->
+   alive s = true /\ mem f (susp s) = false /\ stop_guard (status_of s f) = true /\
+   exists sp, In sp (stops e) /\ matches sp m = true).
+Proof. exact stop_in_iff. Qed.
+Print Assumptions C09_stop_in_iff_partial.
+
+Theorem C09_restart_in_iff_partial : forall s m, NoDup (map fst (tbl s)) ->
+  forall f e, lookup f (tbl s) = Some e -> in_horizon m (restarts e) ->
+  (In (CRestart f) (tick_calls s m) <->
+   alive s = true /\ mem f (susp s) = false /\ exists sp, In sp (restarts e) /\ matches sp m = true).
+Proof. exact restart_in_iff. Qed.
+Print Assumptions C09_restart_in_iff_partial.
+
+(* at most one Start per tick when at most one start schedule matches (excludes F9b) *)
+Theorem C09_start_once_partial : forall s m, NoDup (map fst (tbl s)) ->
+  forall f e, lookup f (tbl s) = Some e -> in_horizon m (starts e) ->
+  (matching m (starts e) <= 1)%nat -> (count (CStart f) (tick_calls s m) <= 1)%nat.
+Proof. exact start_once. Qed.
+Print Assumptions C09_start_once_partial.
+
+Theorem C09_unknown_file_silent : forall s m, NoDup (map fst (tbl s)) ->
+  forall c, lookup (call_file c) (tbl s) = None -> count c (tick_calls s m) = 0%nat.
+Proof. exact unknown_file_silent. Qed.
+Print Assumptions C09_unknown_file_silent.
+
+(* F9a *)
+Theorem C09_start_iff_refuted : exists s m f e,
+  NoDup (map fst (tbl s)) /\ alive s = true /\ lookup f (tbl s) = Some e /\
+  forallb (fun sp => negb (matches sp m)) (starts e) = true /\ In (CStart f) (tick_calls s m).
+Proof. exact start_iff_refuted. Qed.
+Print Assumptions C09_start_iff_refuted.
+
+Theorem C09_restart_iff_refuted : exists d ops,
+  run (init_state d) ops = [[]; [CRestart "d0.yaml"]; [CRestart "d0.yaml"]; [CRestart "d0.yaml"]]%string /\
+  forallb (fun m => negb (matches feb30 m)) [m0; m0 + 1; m0 + 2] = true /\
+  restarts (entry_of (final (init_state d) ops) "d0.yaml"%string) = [feb30].
+Proof. exact restart_iff_refuted. Qed.
+Print Assumptions C09_restart_iff_refuted.
+
+(* F9b *)
+Theorem C09_start_once_refuted : exists s m f e,
+  NoDup (map fst (tbl s)) /\ lookup f (tbl s) = Some e /\ in_horizon m (starts e) /\
+  count (CStart f) (tick_calls s m) = 2%nat.
+Proof. exact start_once_refuted. Qed.
+Print Assumptions C09_start_once_refuted.
+
+Example C09_start_iff_sat : exists s m f e,
+  NoDup (map fst (tbl s)) /\ lookup f (tbl s) = Some e /\ in_horizon m (starts e) /\
+  count (CStart f) (tick_calls s m) = 1%nat /\ count (CStart f) (tick_calls s (m + 1)) = 0%nat.
+Proof. exact start_iff_sat. Qed.
+
+(* ------------------------------------------------------------------------------------------ *)
+(* every history                                                                               *)
+(* ------------------------------------------------------------------------------------------ *)
+(* the daemon's table has one entry per file and follows the loadable part of the directory *)
+Theorem C09_invariant : forall s o, Inv s -> Inv (fst (step s o)).
+Proof. exact step_inv. Qed.
+Print Assumptions C09_invariant.
+
+Theorem C09_invariant_init : forall d, NoDup (map fst d) -> Inv (init_state d).
+Proof. exact init_inv. Qed.
+Print Assumptions C09_invariant_init.
+
+(* full statement: the same without `alive s = true`                          (false: C09_no_miss_refuted) *)
+Theorem C09_no_miss_partial : forall s0 ops, Inv s0 ->
+  forall s m w cs, In (s, OTick m w, cs) (trace s0 ops) -> alive s = true ->
+  forall f c e sp, lookup f (dir s) = Some c -> load f c = FOk e -> In sp (starts e) -> matches sp m = true ->
+  mem f (susp s) = false -> start_guard (status_of s f) m = true -> In (CStart f) cs.
+Proof. exact no_miss. Qed.
+Print Assumptions C09_no_miss_partial.
+
+Theorem C09_no_miss_stop_partial : forall s0 ops, Inv s0 ->
+  forall s m w cs, In (s, OTick m w, cs) (trace s0 ops) -> alive s = true ->
+  forall f c e sp, lookup f (dir s) = Some c -> load f c = FOk e -> In sp (stops e) -> matches sp m = true ->
+  mem f (susp s) = false -> stop_guard (status_of s f) = true -> In (CStop f) cs.
+Proof. exact no_miss_stop. Qed.
+Print Assumptions C09_no_miss_stop_partial.
+
+Theorem C09_no_miss_restart_partial : forall s0 ops, Inv s0 ->
+  forall s m w cs, In (s, OTick m w, cs) (trace s0 ops) -> alive s = true ->
+  forall f c e sp, lookup f (dir s) = Some c -> load f c = FOk e -> In sp (restarts e) -> matches sp m = true ->
+  mem f (susp s) = false -> In (CRestart f) cs.
+Proof. exact no_miss_restart. Qed.
+Print Assumptions C09_no_miss_restart_partial.
+
+(* the daemon stays alive over every history in which no file content makes the loader panic *)
+Theorem C09_alive_partial : forall ops s0, dir_safe s0 -> Forall op_safe ops -> alive s0 = true ->
+  forall s o cs, In (s, o, cs) (trace s0 ops) -> alive s = true.
+Proof. exact alive_stable. Qed.
+Print Assumptions C09_alive_partial.
+
+Theorem C09_restart_alive_partial : forall s, dir_safe s -> alive (fst (step s ORestart)) = true.
+Proof. exact restart_alive. Qed.
+Print Assumptions C09_restart_alive_partial.
+
+(* F13a *)
+Theorem C09_no_miss_refuted : exists d ops s m w cs f c e sp,
+  NoDup (map fst d) /\ In (s, OTick m w, cs) (trace (init_state d) ops) /\
+  lookup f (dir s) = Some c /\ load f c = FOk e /\ In sp (starts e) /\ matches sp m = true /\
+  mem f (susp s) = false /\ start_guard (status_of s f) m = true /\ ~ In (CStart f) cs.
+Proof. exact no_miss_refuted_scan. Qed.
+Print Assumptions C09_no_miss_refuted.
+
+(* full statement: the same without the `at most one due start schedule` conjunct of step_ok
+                                                                              (false: C09_no_double_refuted) *)
+Theorem C09_no_double_partial : forall ops s f m0, NoDup (map fst (tbl s)) -> ticks_mono ops -> trace_ok f s ops ->
+  (starts_at f m0 s ops <= 1)%nat.
+Proof. exact no_double. Qed.
+Print Assumptions C09_no_double_partial.
+
+(* the premises are decidable *)
+Theorem C09_no_double_partial_dec : forall ops s f m0, NoDup (map fst (tbl s)) ->
+  ticks_monob ops = true -> trace_okb f s ops = true -> (starts_at f m0 s ops <= 1)%nat.
+Proof. exact no_double_b. Qed.
+Print Assumptions C09_no_double_partial_dec.
+
+(* F9b *)
+Theorem C09_no_double_refuted : exists d ops f m, ticks_mono ops /\ starts_at f m (init_state d) ops = 2%nat.
+Proof. exact no_double_refuted. Qed.
+Print Assumptions C09_no_double_refuted.
+
+(* a file whose load returns an error changes nothing the daemon believes; at start-up it is skipped *)
+Theorem C09_bad_file : forall s f c, (load f c = FErr \/ load f c = FNotDag) ->
+  tbl (fst (step s (OWrite f c))) = tbl s /\ alive (fst (step s (OWrite f c))) = alive s.
+Proof. exact bad_file_write. Qed.
+Print Assumptions C09_bad_file.
+
+Theorem C09_bad_file_scan : forall s t, NoDup (map fst (dir s)) -> scan (dir s) [] = Some t ->
+  forall f, lookup f t = match lookup f (dir s) with
+                         | Some c => match load f c with FOk e => Some e | _ => None end
+                         | None => None
+                         end.
+Proof. exact bad_file_scan. Qed.
+Print Assumptions C09_bad_file_scan.
+
+Theorem C09_other_files_kept_partial : forall s f c h, h <> f -> panics f c = false ->
+  lookup h (tbl (fst (step s (OWrite f c)))) = lookup h (tbl s).
+Proof. exact other_files_kept. Qed.
+Print Assumptions C09_other_files_kept_partial.
+
+(* F13b *)
+Theorem C09_bad_file_refuted : exists s f c h e,
+  alive s = true /\ h <> f /\ lookup h (tbl s) = Some e /\
+  alive (fst (step s (OWrite f c))) = false /\ tick_calls (fst (step s (OWrite f c))) m0 = [] /\
+  In (CStart h) (tick_calls s m0).
+Proof. exact bad_file_refuted_watcher. Qed.
+Print Assumptions C09_bad_file_refuted.
+
+(* a history satisfying all premises at once: lag, bunched ticks, a restart inside a ticked minute, a bad file, a
+   file added while the daemon runs *)
+Example C09_history_sat :
+  Inv (init_state d_good) /\ ticks_mono h_ops /\ trace_ok "d0.yaml" (init_state d_good) h_ops /\
+  trace_ok "d2.yaml" (init_state d_good) h_ops /\
+  run (init_state d_good) h_ops =
+    [[]; [CStart "d0.yaml"]; []; []; []; []; []; [CStart "d0.yaml"; CStart "d2.yaml"]; []; []]%string /\
+  starts_at "d0.yaml" m0 (init_state d_good) h_ops = 1%nat.
+Proof. exact history_sat. Qed.
+
+Example C09_alive_sat : dir_safe (init_state d_good) /\ Forall op_safe h_ops.
+Proof. exact alive_sat. Qed.
